@@ -23,6 +23,8 @@ def accepting_units(tier='quick', modules=None):
     """(module -> list of (opts repr, n)) with at least one accepting path, from the C01 sweep of the current tree
     (content-hash cache; swept now if absent)"""
     from .props import vfamily
+    if modules is not None and not list(modules):
+        return {}
     results = vfamily.run_sweep('quick', modules, True, log=False)
     out = {}
     for m, r in results.items():
